@@ -497,7 +497,8 @@ class CFG(object):
                 if self.nodes[d].kind == "handler"]
 
     # ------------------------------------------------- flag-sensitive search
-    def flag_search(self, src, flags, goal, avoid=(), edge_filter=None):
+    def flag_search(self, src, flags, goal, avoid=(), edge_filter=None,
+                    assume=None):
         """Explore (node, valuation) pairs.  `flags` maps local names to an
         initial abstract value T/F/U.  Returns a witness path (list of node ids)
         to the first state for which goal(node_id, valuation_dict) is true, else
@@ -524,7 +525,7 @@ class CFG(object):
                     continue
                 if edge_filter and not edge_filter(nid, m):
                     continue
-                nv = self._transfer(self.nodes[m], vd)
+                nv = self._transfer(self.nodes[m], vd, assume)
                 if nv is None:
                     continue
                 st2 = (m, tuple(nv[n] for n in names))
@@ -533,10 +534,14 @@ class CFG(object):
                     dq.append(st2)
         return None
 
-    def _transfer(self, node, vd):
+    def _transfer(self, node, vd, assume=None):
         vd = dict(vd)
         if node.kind in ("true", "false"):
-            v = eval3(node.ast, vd)
+            env = vd
+            if assume:
+                env = dict(vd)
+                env.update(assume)
+            v = eval3(node.ast, env)
             want = T if node.kind == "true" else F
             if v != U and v != want:
                 return None
@@ -592,6 +597,8 @@ def eval3(expr, vd):
         return T if expr.value else F
     if isinstance(expr, ast.Name):
         return vd.get(expr.id, U)
+    if isinstance(expr, ast.Attribute):
+        return vd.get(unparse(expr), U)
     if isinstance(expr, ast.UnaryOp) and isinstance(expr.op, ast.Not):
         v = eval3(expr.operand, vd)
         return {T: F, F: T, U: U}[v]
